@@ -178,7 +178,8 @@ def mk_enum(s_edt):
     s_dt = one(s_edt).S_DT[17]()
     enums = list()
     kwlist =['False', 'None', 'True'] + keyword.kwlist
-    for enum in many(s_edt).S_ENUM[27]():
+    s_enums = xtuml.sort_reflexive(many(s_edt).S_ENUM[27](), 56, 'succeeds')
+    for enum in s_enums:
         if enum.Name in kwlist:
             enums.append(enum.Name + '_')
         else:
